@@ -127,7 +127,7 @@ Proof.
     unfold per_cell in Hf. rewrite nth_error_map, Hn in Hf. discriminate.
   - destruct (ctype_eqb _ _); inversion Hd; subst; auto.
     unfold per_cell in Hf. rewrite nth_error_map, Hn in Hf. discriminate.
-  - destruct (col_coarse c); try discriminate. destruct s; inversion Hd; subst; auto;
+  - destruct (col_coarse c); try (inversion Hd; subst; auto; fail). destruct s; inversion Hd; subst; auto;
       unfold per_cell in Hf; rewrite nth_error_map, Hn in Hf; discriminate.
   - inversion Hd; subst. rewrite nth_error_map, Hn in Hf. discriminate.
   - inversion Hd; subst. unfold per_cell in Hf. rewrite nth_error_map, Hn in Hf. discriminate.
@@ -160,3 +160,18 @@ Proof. unfold flags_of. destruct (verify p (Some c) k); [discriminate|reflexivit
 Theorem outfile_iff_failure_proof before failures : 0 <= failures ->
   (outfile_after before failures = true <-> failures > 0).
 Proof. intro H. unfold outfile_after. rewrite Z.ltb_lt. lia. Qed.
+
+(* ... and EVERY failing constraint gets its flag column (since the fix that writes an all-false column for a
+   sign constraint on a non-numeric field and for length / rex constraints on a non-string field) *)
+Theorem flags_for_every_failure_proof p c k : verify p (Some c) k = false -> flags_of p c k <> None.
+Proof.
+  intro Hv. unfold flags_of. rewrite Hv.
+  destruct k as [[ts|]|[b|]|[b|]|[n|]|[n|]|[s|]|[n|]|[[|]|]|[vs|]|[r|]]; cbn [verify] in Hv; try discriminate;
+    cbn [detect_flags]; try discriminate.
+  - destruct (negb _); discriminate.
+  - destruct (negb _); discriminate.
+  - destruct (ctype_eqb _ _); discriminate.
+  - destruct (ctype_eqb _ _); discriminate.
+  - destruct (col_coarse c); [|discriminate|discriminate]. destruct s; discriminate.
+  - unfold detect_rex_flags. destruct (ctype_eqb _ _); discriminate.
+Qed.
